@@ -39,8 +39,8 @@ impl Check for C17 {
     }
     fn cases(&self, tier: Tier) -> u64 {
         match tier {
-            Tier::Quick => 60_000,
-            Tier::Thorough => 2_000_000,
+            Tier::Quick => 600_000,
+            Tier::Thorough => 20_000_000,
         }
     }
     /// Direct cases: program text.
